@@ -69,6 +69,42 @@ def main():
             if len(n.bases) != 1 or not isinstance(n.bases[0], ast.Name):
                 raise Untranslatable("errors.py:%d: class %s without a single named base" % (n.lineno, n.name))
             classes.append((n.name, n.bases[0].id))
+    # ---- the option plumbing: which argparse destinations reach which validate() keyword
+    dests = []
+    for n in ast.walk(tree):
+        if isinstance(n, ast.Call) and isinstance(n.func, ast.Attribute) and n.func.attr == "add_argument":
+            d = [k.value.value for k in n.keywords if k.arg == "dest" and isinstance(k.value, ast.Constant)]
+            if d:
+                dests.append(d[0])
+            elif n.args and isinstance(n.args[0], ast.Constant) and not n.args[0].value.startswith("-"):
+                dests.append(n.args[0].value)
+    passed = []   # (args attribute read in the guarding test or value, keyword)
+    def attrs_of(node):
+        return sorted({a.attr for a in ast.walk(node) if isinstance(a, ast.Attribute) and isinstance(a.value, ast.Name) and a.value.id == "args"})
+    def scan(stmts, guards):
+        for st in stmts:
+            if isinstance(st, ast.If):
+                scan(st.body, guards + attrs_of(st.test))
+                scan(st.orelse, guards + attrs_of(st.test))
+            elif isinstance(st, ast.Try):
+                scan(st.body, guards); scan(st.orelse, guards)
+            elif isinstance(st, ast.Assign) and len(st.targets) == 1 and isinstance(st.targets[0], ast.Subscript) \
+                    and isinstance(st.targets[0].value, ast.Name) and st.targets[0].value.id == "validator_kwargs" and isinstance(st.targets[0].slice, ast.Constant):
+                for a in sorted(set(guards + attrs_of(st.value))):
+                    passed.append((a, st.targets[0].slice.value))
+            elif isinstance(st, ast.Assign) and len(st.targets) == 1 and isinstance(st.targets[0], ast.Name) and st.targets[0].id == "validator_kwargs" and isinstance(st.value, ast.Dict):
+                for k, v in zip(st.value.keys, st.value.values):
+                    for a in attrs_of(v):
+                        passed.append((a, k.value))
+    scan(fn.body[:idx], [])
+    # the keywords validate() understands: named parameters and kwargs.pop/get keys
+    vtree = ast.parse(open(os.path.join(REPO, "pyshacl", "entrypoints.py")).read())
+    vfn = [n for n in vtree.body if isinstance(n, ast.FunctionDef) and n.name == "validate"][0]
+    understood = [a.arg for a in vfn.args.kwonlyargs] + [a.arg for a in vfn.args.args]
+    for n in ast.walk(vfn):
+        if isinstance(n, ast.Call) and isinstance(n.func, ast.Attribute) and n.func.attr in ("pop", "get") and isinstance(n.func.value, ast.Name) and n.func.value.id == "kwargs" \
+                and n.args and isinstance(n.args[0], ast.Constant):
+            understood.append(n.args[0].value)
     lines = ["(* GENERATED by translator/t3.py from /repo/pyshacl/cli.py and errors.py - do not edit *)",
              "From Coq Require Import List NArith String Bool.", "Import ListNotations.", "Open Scope string_scope.", "",
              "(* except clauses around validate(), in order: (class, exit_code, writes to the report output) *)",
@@ -78,7 +114,13 @@ def main():
              "Definition cli_final_exit_conform : N := 0%N.", "Definition cli_final_exit_nonconform : N := 1%N.",
              "Definition cli_report_written_before_final_exit : bool := %s." % ("true" if writes_after else "false"), "",
              "(* pyshacl/errors.py: class and its base *)",
-             "Definition error_classes : list (string * string) :=\n  [%s]." % "; ".join("(%s, %s)" % (cstr(a), cstr(b)) for a, b in classes), ""]
+             "Definition error_classes : list (string * string) :=\n  [%s]." % "; ".join("(%s, %s)" % (cstr(a), cstr(b)) for a, b in classes), "",
+             "(* argparse destinations of the command line *)",
+             "Definition cli_dests : list string := [%s]." % "; ".join(cstr(d) for d in dests),
+             "(* (destination read, keyword of validate() it reaches) *)",
+             "Definition cli_passed : list (string * string) :=\n  [%s]." % "; ".join("(%s, %s)" % (cstr(a), cstr(k)) for a, k in passed),
+             "(* keywords validate() reads *)",
+             "Definition validate_keywords : list string := [%s]." % "; ".join(cstr(k) for k in sorted(set(understood))), ""]
     text = "\n".join(lines)
     out = os.path.join(os.path.dirname(HERE), "coq", "Gen", "T3.v")
     if not os.path.exists(out) or open(out).read() != text:
